@@ -186,6 +186,7 @@ pub fn run_c11(ctx: &Ctx) -> (&'static str, &'static str) {
         (Some(a.clone()), Some(r() - &b), "([a]g1,-[b]g2)"),
         (None, Some(BigUint::one()), "(O,g2)"),
         (Some(BigUint::one()), None, "(g1,O)"),
+        (None, None, "(O,O)"),
     ];
     let pts: Vec<(G1Affine, G2Affine)> = pairs_exp
         .iter()
@@ -340,11 +341,11 @@ pub fn run_c11(ctx: &Ctx) -> (&'static str, &'static str) {
     for len in [8usize, 9] {
         ctx.sweep(
             &format!("pair_lists.len{}_identity_positions", len),
-            (2 * len) as u64,
-            |i| json!({"len": len, "identity_at": i / 2, "which": if i % 2 == 0 {"(O,g2)"} else {"(g1,O)"}}),
+            (3 * len) as u64,
+            |i| json!({"len": len, "identity_at": i / 3, "which": (["(O,g2)", "(g1,O)", "(O,O)"][(i % 3) as usize])}),
             |i| {
-                let pos = (i / 2) as usize;
-                let idk = 4 + (i % 2) as usize;
+                let pos = (i / 3) as usize;
+                let idk = 4 + (i % 3) as usize;
                 let d: Vec<usize> = (0..len).map(|t| if t == pos { idk } else { t % 4 }).collect();
                 let mut esum = BigUint::zero();
                 for &k in &d {
